@@ -1,9 +1,43 @@
 """Bounded stand-ins (DESIGN 2.11): executed on the real code, never counted as proved."""
+import glob
+import importlib
+import os
+import sys
+import time
+
+ROOT = os.path.dirname(os.path.dirname(os.path.abspath(__file__)))
+
+
+def registry():
+    reg = {}
+    sys.path.insert(0, ROOT)
+    for f in sorted(glob.glob(os.path.join(ROOT, "bounded", "b_*.py"))):
+        m = importlib.import_module("bounded." + os.path.basename(f)[:-3])
+        for k, fn in getattr(m, "CHECKS", {}).items():
+            reg[k] = (m, fn)
+    return reg
 
 
 def run(name, prop, tier, seed, jobs):
-    raise NotImplementedError(name)
+    reg = registry()
+    if name not in reg:
+        raise KeyError("bounded check %s not found" % name)
+    m, fn = reg[name]
+    t0 = time.time()
+    r = fn(tier, seed, jobs)
+    r["report"]["name"] = name
+    r["report"].setdefault("wall_s", round(time.time() - t0, 2))
+    for v in r["violations"]:
+        v["bounded"] = name
+    return r
 
 
 def replay(rep):
-    raise NotImplementedError
+    reg = registry()
+    m, fn = reg[rep["bounded"]]
+    out = m.replay(rep["case"])
+    print(out)
+    if out.get("reproduced"):
+        print("VIOLATION property=%s replay=(bounded case)" % rep.get("property"))
+        return 1
+    return 0
